@@ -13,7 +13,7 @@ RULE = ("every operator table with 1..{k} binary operators over priority levels 
 def check(run, only=None):
     if only in (None, "B"):
         quick = run.tier == "quick"
-        kmax = 3 if quick else 5
+        kmax = 3 if quick else 4
         level_sets = [(1, 2, 3, 4, 5, 6), (0, 1, 2, 3, 4, 5), (5, 10, 20, 30, 40, 50)]
         params = {"max_ops": 3 if quick else 4, "neutral_len": 5 if quick else 7}
         cases = []
@@ -27,6 +27,8 @@ def check(run, only=None):
                             cases.append((table, style, order))
         if quick:
             cases = [c for i, c in enumerate(cases) if len(c[0]) <= 2 or i % 3 == 0]
+        else:
+            cases = [c for i, c in enumerate(cases) if len(c[0]) <= 3 or i % 4 == 0]
         results = fw.pmap(precmon.prec_worker, [("C06", c, params) for c in cases])
         out = fw.merge_worker_results(results, RULE.format(k=kmax, lv=level_sets, m=params["max_ops"],
                                                             nl=params["neutral_len"]))
